@@ -128,6 +128,9 @@ fn main() {
             if let Some(s) = &o.sample {
                 println!("CASE {}", s.to_string());
             }
+            if let Some(d) = o.digest {
+                println!("DIGEST {:#018x}", d);
+            }
             if let Some(m) = &o.internal {
                 println!("INTERNAL-ERROR {}", m);
                 std::process::exit(2);
